@@ -101,7 +101,8 @@ class C16(Prop):
     quick_budget = 900
     thorough_budget = 12000
     rule = ("digests: real files of 9 sizes around multiples of the 1 MiB chunk x every hashlib algorithm usable by name vs one-shot "
-            "hashlib, read sizes vs the model's trace; add: relative paths with ./ // x/../ (and absolute ones) with and without a given "
+            "hashlib, each file hashed twice with a content change in between (same size and mtime / new mtime / new size), read sizes "
+            "vs the model's trace; add (incl. x/../ over real, symlinked and missing directories): relative paths with ./ // x/../ (and absolute ones) with and without a given "
             "value; sections: typed/bare entries of lengths 31..65 in every order loaded by the real TreeInfo; tables written and read "
             "back; add_checksum sequences; non-trivial = distinct case")
     assumptions = ["hashlib objects satisfy update(a); update(b) == update(a+b) and update(b'') is the identity (hypotheses of C16_chunked; "
@@ -150,7 +151,18 @@ class C16(Prop):
         for s, a in pairs:
             if (s, a) not in seen:
                 seen.add((s, a))
-                yield {"op": "digest", "args": {"size": s, "algo": a, "via": "add" if (s + len(a)) % 3 == 0 else "compute"}}
+                yield {"op": "digest", "args": {"size": s, "algo": a, "via": "add" if (s + len(a)) % 3 == 0 else "compute",
+                                                "change": ["same-size-same-mtime", "same-size-same-mtime", "same-size-new-mtime", "new-size"][len(seen) % 4]}}
+        # 2b. `x/../` where x is a real directory / a symlink to a directory elsewhere / missing; digest always computed
+        templates = [("images/%s/../boot.iso", 1), ("%s/../a/Z.img", 1), ("a/%s/../b/%s/../Z.img", 2), ("./%s/..//images/./%s/../initrd.img", 2),
+                     ("a/b/%s/../../c", 1), ("%s/../%s/../top.img", 2)]
+        names = {"dir": ["sub", "subdir2"], "symlink": ["lnk", "previous"], "missing": ["gone", "nonexistent"]}
+        for i in range(max(36, budget // 12)):
+            tpl, n = templates[i % len(templates)]
+            modes = [["dir", "symlink", "missing"][(i // len(templates) + j) % 3] for j in range(n)]
+            comps = [names[m][j] for j, m in enumerate(modes)]
+            yield {"op": "add", "args": {"path": tpl % tuple(comps), "type": rng.choice(["sha256", "md5", "sha1"]), "value": rng.choice([None, None, ""]),
+                                         "root": True, "size": rng.choice([1, 5, 1000]), "before": [], "links": dict(zip(comps, modes))}}
         # 2. add with redundant path components
         comps = ["a", "b", "Z.img", ".", "..", "", "x y", "..."]
         n_add = max(60, budget // 6)
@@ -228,19 +240,45 @@ class C16(Prop):
         import productmd.treeinfo as T
         op, a = case["op"], case["args"]
         if op == "digest":
-            path = self.file_of_size(a["size"])
-            expected = hashlib.new(a["algo"], content_of(a["size"])).hexdigest()
-            with ReadSpy(self.workdir()) as spy:
-                try:
-                    if a["via"] == "add":
-                        ti = T.TreeInfo()
-                        ti.checksums.add("./" + os.path.basename(path), a["algo"], None, self.workdir())
-                        got = ti.checksums.checksums[os.path.basename(path)][1]
-                    else:
-                        got = T.compute_checksum(path, a["algo"])
-                except Exception as e:
-                    got = {"err": errname(e)}
-            return {"digest": got, "expected": expected, "reads": spy.reads}
+            # every file is hashed TWICE on the same path in the same process, with a content change in between that keeps
+            # the size and (by default) the modification time: a digest is a function of the content, nothing else
+            size, change = a["size"], a.get("change", "same-size-same-mtime")
+            d = tempfile.mkdtemp(prefix="c16d-", dir=self.workdir())
+            path = os.path.join(d, "blob-%d" % size)
+            rounds, salt = [], 0
+            try:
+                data = content_of(size, salt)
+                with open(path, "wb") as f:
+                    f.write(data)
+                for rnd in (0, 1):
+                    expected = hashlib.new(a["algo"], data).hexdigest()
+                    with ReadSpy(d) as spy:
+                        try:
+                            if a["via"] == "add":
+                                ti = T.TreeInfo()
+                                ti.checksums.add("./" + os.path.basename(path), a["algo"], None, d)
+                                got = ti.checksums.checksums[os.path.basename(path)][1]
+                            else:
+                                got = T.compute_checksum(path, a["algo"])
+                        except Exception as e:
+                            got = {"err": errname(e)}
+                    rounds.append({"digest": got, "expected": expected, "reads": spy.reads, "size": len(data)})
+                    if rnd == 0:
+                        st = os.stat(path)
+                        new_size = size if change != "new-size" else size + 1
+                        while True:
+                            salt += 1
+                            new = content_of(new_size, salt)
+                            if new != data or new_size == 0:
+                                break
+                        data = new
+                        with open(path, "wb") as f:
+                            f.write(data)
+                        if change == "same-size-same-mtime":
+                            os.utime(path, ns=(st.st_atime_ns, st.st_mtime_ns))
+            finally:
+                shutil.rmtree(d, ignore_errors=True)
+            return {"rounds": rounds, "digest": rounds[0]["digest"], "expected": rounds[0]["expected"], "reads": rounds[0]["reads"]}
         if op == "add":
             root = tempfile.mkdtemp(prefix="c16r-", dir=self.workdir())
             ti = T.TreeInfo()
@@ -262,6 +300,35 @@ class C16(Prop):
                     expected_digest = hashlib.new(a["type"], data).hexdigest()
                 except Exception:
                     expected_digest = None
+                # components that `x/../` cancels: a real directory, a SYMLINK to a directory elsewhere (below which the
+                # un-normalised spelling reaches a DIFFERENT file), or nothing at all
+                lex, comps = [], [c for c in a["path"].split("/")]
+                for i, c in enumerate(comps):
+                    if c in ("", "."):
+                        continue
+                    if c == "..":
+                        if lex:
+                            lex.pop()
+                        continue
+                    mode = a.get("links", {}).get(c)
+                    here = os.path.join(treeroot, *(lex + [c]))
+                    if mode == "dir":
+                        os.makedirs(here, exist_ok=True)
+                    elif mode == "symlink" and not os.path.lexists(here):
+                        os.makedirs(os.path.dirname(here), exist_ok=True)
+                        elsewhere = os.path.join(root, "elsewhere", "d%d" % i, "sub")
+                        os.makedirs(elsewhere)
+                        os.symlink(elsewhere, here)
+                    lex.append(c)
+                if "symlink" in a.get("links", {}).values():
+                    os_target = os.path.join(treeroot, a["path"])
+                    try:
+                        if os.path.realpath(os_target) != os.path.realpath(target):
+                            os.makedirs(os.path.dirname(os_target), exist_ok=True)
+                            with open(os_target, "wb") as f:
+                                f.write(content_of(a["size"], 4) + b"decoy")
+                    except OSError:
+                        pass
             with ReadSpy(root) as spy:
                 try:
                     ti.checksums.add(a["path"], a["type"], a["value"], treeroot if a["root"] else None)
@@ -269,7 +336,7 @@ class C16(Prop):
                 except Exception as e:
                     res = {"err": errname(e)}
             after = dict((k, list(v)) for k, v in ti.checksums.checksums.items())
-            opened = [os.path.relpath(p, treeroot) for p in spy.opened]
+            opened = [p[len(treeroot) + 1:] if p.startswith(treeroot + "/") else p for p in spy.opened]
             shutil.rmtree(root, ignore_errors=True)
             return {"result": res, "before": before, "after": after, "order": list(after), "opened": opened, "expected_digest": expected_digest,
                     "digest_ok": expected_digest is not None and bool(a["root"])}
@@ -327,7 +394,7 @@ class C16(Prop):
     def model_requests(self, case):
         op, a = case["op"], case["args"]
         if op == "digest":
-            return [{"op": "ck_read_trace", "args": {"size": a["size"]}}]
+            return [{"op": "ck_read_trace", "args": {"size": rd["size"]}} for rd in self._last["rounds"]]
         if op == "add":
             r = self._last
             dg = {"ok": r["expected_digest"]} if r.get("expected_digest") is not None else {"err": "Other" if a["type"] != "no-such-algo" else "ValueError"}
@@ -359,10 +426,11 @@ class C16(Prop):
     def compare(self, case, real_out, outs):
         op, a = case["op"], case["args"]
         if op == "digest":
-            if isinstance(real_out["digest"], dict):
-                return None
-            if real_out["reads"] != outs[0]:
-                return {"real": {"reads": real_out["reads"]}, "model": {"reads": outs[0]}}
+            for i, (rd, m) in enumerate(zip(real_out["rounds"], outs)):
+                if isinstance(rd["digest"], dict):
+                    continue
+                if rd["reads"] != m:
+                    return {"real": {"round": i, "reads": rd["reads"]}, "model": {"round": i, "reads": m}}
             return None
         if op == "add":
             m = outs[0]
@@ -371,8 +439,8 @@ class C16(Prop):
             rv = {"result": real_out["result"], "table": real_out["after"], "order": real_out["order"]}
             mv = {"result": mres, "table": mtable, "order": [k for k, _ in m["table"]]}
             if real_out["result"] == "ok" and real_out["opened"]:
-                rv["opened"] = [os.path.normpath(p) for p in real_out["opened"]]
-                mv["opened"] = [os.path.normpath(os.path.relpath(m["digest_path"], "R"))] if m["digest_path"] else None
+                rv["opened"] = list(real_out["opened"])          # the exact spelling handed to open()
+                mv["opened"] = [m["digest_path"][2:] if m["digest_path"].startswith("R/") else m["digest_path"]] if m["digest_path"] else None
             if rv != mv:
                 return {"real": rv, "model": mv}
             return None
@@ -416,9 +484,13 @@ class C16(Prop):
     def oracle(self, case, r):
         op, a = case["op"], case["args"]
         if op == "digest":
-            if r["digest"] != r["expected"]:
-                return {"observed": {"digest": r["digest"], "reads": r["reads"], "size": a["size"], "algo": a["algo"]},
-                        "required": {"digest": r["expected"], "what": "hashlib.new(algo, whole content).hexdigest()"}, "kind": "wrong-digest"}
+            for i, rd in enumerate(r["rounds"]):
+                if rd["digest"] != rd["expected"]:
+                    what = "hashlib.new(algo, whole content).hexdigest()" if i == 0 else \
+                        "digest of the CURRENT content after the file was rewritten (%s)" % a.get("change", "same-size-same-mtime")
+                    return {"observed": {"round": i, "digest": rd["digest"], "reads": rd["reads"], "size": rd["size"], "algo": a["algo"],
+                                         "first_round_digest": r["rounds"][0]["digest"]},
+                            "required": {"digest": rd["expected"], "what": what}, "kind": "wrong-digest" if i == 0 else "stale-digest"}
             return None
         if op == "add":
             if a["path"].startswith("/"):
@@ -428,6 +500,10 @@ class C16(Prop):
             if r["result"] != "ok":
                 if r["after"] != r["before"]:
                     return {"observed": {"result": r["result"], "table": r["after"]}, "required": "a refused add leaves the table unchanged", "kind": "refused-add-changed-table"}
+                if not a["value"] and a["root"] and r["expected_digest"] is not None:
+                    return {"observed": {"result": r["result"], "links": a.get("links")},
+                            "required": {"what": "the file at root/normpath(path) exists: its digest is computed and recorded", "digest": r["expected_digest"]},
+                            "kind": "unexpected-refusal"}
                 return None
             key = posixpath.normpath(a["path"]) if a["path"] else "."
             want = dict(r["before"])
@@ -488,6 +564,7 @@ class C16(Prop):
         op = case["op"]
         dist[op] = dist.get(op, 0) + 1
         if op == "digest":
+            dist["digest change:" + case["args"].get("change", "")] = dist.get("digest change:" + case["args"].get("change", ""), 0) + 1
             k = "digest reads=%d" % len(r["reads"])
             dist[k] = dist.get(k, 0) + 1
             dist.setdefault("algorithms", [])
@@ -498,6 +575,8 @@ class C16(Prop):
             k = "%s %s" % (op, "ok" if "ok" in res else "ini-error" if "ini_error" in r else "err:" + str(res.get("err")))
             dist[k] = dist.get(k, 0) + 1
         elif op == "add":
+            for m in sorted(set(case["args"].get("links", {}).values())):
+                dist["add cancelled component: " + m] = dist.get("add cancelled component: " + m, 0) + 1
             k = "add %s" % (r["result"] if r["result"] == "ok" else "err:" + r["result"]["err"])
             dist[k] = dist.get(k, 0) + 1
 
